@@ -39,7 +39,7 @@ fn or3(a: V3, b: V3) -> V3 {
     not3(and3(not3(a), not3(b)))
 }
 
-const NFORMS: usize = 16;
+const NFORMS: usize = 22;
 const COLS: [&str; 4] = ["a", "b", "c", "d"];
 
 #[derive(Clone, Debug)]
@@ -65,8 +65,23 @@ fn leaf_val(form: usize, x: Option<bool>) -> V3 {
         None => N,
     };
     match form {
-        0 | 1 | 4 | 5 | 8 | 10 | 14 => t,
-        2 => not3(t),
+        0 | 1 | 4 | 5 | 8 | 10 | 14 | 16 | 17 => t,
+        2 | 18 | 19 => not3(t),
+        // ordering comparisons that hold (20) or fail (21) for both non-NULL values
+        20 => {
+            if x.is_none() {
+                N
+            } else {
+                T
+            }
+        }
+        21 => {
+            if x.is_none() {
+                N
+            } else {
+                F
+            }
+        }
         3 => {
             if x.is_none() {
                 T
@@ -121,6 +136,13 @@ fn leaf_expr(atom: usize, form: usize) -> SimpleExpr {
         10 => c().eq(1).and(c().eq(1)),
         11 => SimpleExpr::Constant(false.into()),
         15 => SimpleExpr::Value(Value::Bool(None)),
+        // ordering comparisons, each with a row on the boundary (the column holds 0, 1 or NULL)
+        16 => c().gte(1),
+        17 => c().gt(0),
+        18 => c().lte(0),
+        19 => c().lt(1),
+        20 => c().gte(0),
+        21 => c().gt(1),
         // OR whose right operand is not itself a binary expression
         14 => c().eq(1).or(SimpleExpr::from(c())),
         12 => Expr::cust(format!("\"{0}\" = 1 OR \"{0}\" = 0", COLS[atom])),
